@@ -3,7 +3,7 @@
 //@ anchor: serde_avro_fast/src/de/read/mod.rs :: impl<'de> Read for SliceRead<'de> \{
 //@ anchor: serde_avro_fast/src/de/read/mod.rs :: impl<R: std::io::BufRead> Read for ReaderRead<R> \{
 //@ anchor: serde_avro_fast/src/de/read/mod.rs :: impl<'de, R: std::io::BufRead> ReadSlice<'de> for ReaderRead<R> \{
-//@ anchor: serde_avro_fast/src/de/read/mod.rs :: fn skip_bytes\(&mut self, n_bytes: u64\) -> Result<\(\), DeError> \{\n\t\tlet written
+//@ anchor: serde_avro_fast/src/de/read/mod.rs :: {2} fn skip_bytes\(&mut self, n_bytes: u64\) -> Result<\(\), DeError> \{
 //@ anchor: serde_avro_fast/src/de/read/mod.rs :: fn read_const_size_buf<const N: usize>\(&mut self\)
 //@ include: spec
 //@ include: common
@@ -292,11 +292,11 @@ fn c03_read_slice_slice() {
 }
 
 //@ harness: c11_read_slice
-//@   props: C11, C04
+//@   props: C11, C04, C03
 //@   tier: quick
 //@   kind: bounded(input length <= 4, max_alloc_size <= 4; n symbolic over all usize)
 //@   fn: de::read::ReadSlice::read_slice on ReaderRead (in-buffer visit vs scratch copy) vs SliceRead
-//@   domain: every input of length 0..=4, every requested length n (any usize), every refill size, max_alloc_size symbolic 0..=4
+//@   domain: every input of length 0..=4, every requested length n (any usize), every refill size, max_alloc_size symbolic 0..=4, scratch buffer left at ANY length <= max_alloc_size by earlier reads
 //@   post: same bytes and consumption as the slice reader when Ok; never Ok where the slice reader fails; reader Err where slice is Ok only by the allocation cap (n > max_alloc_size and not already buffered); scratch never grows beyond max_alloc_size
 #[kani::proof]
 #[kani::unwind(7)]
@@ -316,6 +316,18 @@ fn c11_read_slice() {
 	let cap: usize = kani::any();
 	kani::assume(cap <= 4);
 	r.max_alloc_size = cap;
+	// ARBITRARY earlier history: the scratch buffer may already have been grown (to any size the cap
+	// allows) by previous reads of this reader - the contract is an inductive step, not a first call
+	let s0: usize = kani::any();
+	kani::assume(s0 <= cap);
+	r.scratch = match s0 {
+		0 => Vec::new(),
+		1 => vec![0xEE],
+		2 => vec![0xEE, 0xEE],
+		3 => vec![0xEE, 0xEE, 0xEE],
+		_ => vec![0xEE, 0xEE, 0xEE, 0xEE],
+	};
+	kani::cover!(s0 > n && n > k, "COV scratch path with a scratch left larger by an earlier read");
 	let b = r.read_slice(n, CopyVisitor);
 	let consumed_b = r.reader.consumed();
 	kani::cover!(b.is_ok() && n > k, "COV scratch path taken");
